@@ -46,7 +46,9 @@ Wanted(r) == UNION {Minutes(Parse(r.pats[j])) : j \in DOMAIN r.pats}
 AllMatch(poll, ms) == \A k \in DOMAIN poll : poll[k] \in ms
 WaitOk(r) == LET ms == Wanted(r)
                  n == Len(r.polls)
-             IN  /\ \A p \in 1..n - 1 : ~AllMatch(r.polls[p], ms)          \* (it went on: so not everything matched)
+             IN  /\ r.polls[1][1] # 9999                                      \* the clock is read before the first sleep: a wait
+                                                                             \* that starts in a matching minute ends at once
+                 /\ \A p \in 1..n - 1 : ~AllMatch(r.polls[p], ms)          \* (it went on: so not everything matched)
                  /\ IF r.ended THEN \E k \in DOMAIN r.polls[n] : r.polls[n][k] \in ms
                               ELSE ~AllMatch(r.polls[n], ms)
 
